@@ -343,6 +343,44 @@ def grid_history_task(item):
     return errs, n
 
 
+HIST_CURVES = CURVES + ('ThinRect', 'ShiftedSquare', 'OpenEll')
+
+
+def _history_grids(g):
+    """Space grids for the cross-curve histories: the shipped ones plus grids made of the break points and ALL integers / half
+    integers below the length - parameter values that other curves also use, lying on a different piece there."""
+    ps = [float(x) for x in g.pw_start]
+    L = ps[-1]
+    grids = dict(space_grids(g))
+    ints = [float(k) for k in range(int(np.floor(L)) + 1) if k < L]
+    grids['integers'] = sorted(set(ps + ints))
+    grids['half-integers'] = sorted(set(ps + [k / 2 for k in range(int(np.floor(2 * L)) + 1) if k / 2 < L]))
+    return grids
+
+
+def cross_curve_task(item):
+    """Histories of mesh constructions on TWO curves in one brand-new process: every grid on a fresh object of the first curve,
+    then every grid on a fresh object of the second; whatever module / class-level state the first curve leaves behind must not
+    change the piece an element of the second carries (and vice versa on a third pass over the first)."""
+    a, b = item
+    errs = []
+    n = 0
+    for cname in (a, b, a):
+        g = meshmc.curve(cname)
+        for nm, sg in sorted(_history_grids(g).items()):
+            try:
+                m = MeshParametrized(g, initial_space_mesh=None if sg is None else list(sg), initial_time_mesh=[0.0, 0.5, 1.0])
+                m.uniform_refine()
+            except Exception as ex:
+                errs.append(('cross-curve-history-raised', {'first': a, 'second': b, 'curve': cname, 'grid': nm, 'exc': repr(ex)}))
+                continue
+            n += 1
+            for t, d in check_mesh(m, g):
+                if len(errs) < 4:
+                    errs.append(('cross-curve-history:' + t, {'first': a, 'second': b, 'curve': cname, 'grid': nm, 'space_grid': sg, 'detail': d}))
+    return errs, n
+
+
 def run(ctx):
     nviol_before = ctx.n_viol
     ncases = 0
@@ -412,6 +450,17 @@ def run(ctx):
                           {'part': 'mesh-history', 'curve': cname})
     per['grid_histories_meshes_built'] = nH
     nstates += nH
+    hpairs = [(a, b) for a in HIST_CURVES for b in HIST_CURVES if a != b]
+    nX = 0
+    for pr, (errs, nn) in zip(hpairs, common.pmap_fresh(cross_curve_task, hpairs, ctx.jobs)):
+        nX += nn
+        for tag, d in errs[:2]:
+            ctx.violation({'part': 'cross-curve-history', 'first': pr[0], 'second': pr[1], 'tag': tag},
+                          'construction history over two curves in one process: {} {}'.format(tag, d),
+                          {'part': 'cross-curve-history', 'first': pr[0], 'second': pr[1]})
+    per['cross_curve_histories_in_fresh_processes'] = len(hpairs)
+    per['cross_curve_history_meshes_built'] = nX
+    nstates += nX
     cov = {
         'evaluations': ncases + nleaf, 'distinct_nontrivial': ncases + nstates,
         'rule': 'curve clauses: one evaluation per (curve, alphabet point / pair of alphabet points in one piece / break point); '
@@ -436,6 +485,8 @@ def replay(ctx, data):
         print('constructor:', status)
     elif data['part'] == 'mesh-history':
         errs, n = grid_history_task(data['curve'])
+    elif data['part'] == 'cross-curve-history':
+        errs, n = common.pmap_fresh(cross_curve_task, [(data['first'], data['second'])], 1)[0]
     else:
         g = meshmc.curve(data['curve'])
         cfg = ('param', data['curve'], None if data['space_grid'] is None else tuple(data['space_grid']),
